@@ -34,28 +34,84 @@ def closure_ret(cfg, clo):
     return subst(r[0].ret, m)
 
 
+def fn_paths(cfg, fv, policy=None):
+    """Outcomes of a function value (closure, or function item with a body in the crate) on one argument ('ARG',):
+    list of (guards, ret) over its returning paths, or None.  Private helpers are inlined and std Option/Result/bool
+    combinators are presented as matches, so the way the function is written does not matter."""
+    if not isinstance(fv, tuple):
+        return None
+    if fv[0] == "closure":
+        cb = [x for x in cfg.bio.bodies if x["path"] == fv[1]]
+        m = {P(2): ("ARG",), ("deref", P(2)): ("ARG",)}
+        for i, cap in enumerate(fv[3]):
+            m[F(P(1), i)] = cap
+    elif fv[0] == "fn":
+        cb = [x for x in cfg.bio.bodies if x["path"] == fv[1]]
+        m = {P(1): ("ARG",), ("deref", P(1)): ("ARG",)}
+    else:
+        return None
+    if len(cb) != 1:
+        return None
+    try:
+        paths, _ = an.analyse(cfg, cb[0], policy=policy or an.ForkPolicy())
+    except Exception:
+        return None
+    if any(p.end not in ("return", "panic") for p in paths):
+        return None
+    out = []
+    for p in paths:
+        if p.end == "return":
+            out.append((tuple(subst(g, m) for g in p.guards), subst(p.ret, m)))
+    return out
+
+
+def _try_ascii_split(fp):
+    """fp = fn_paths(..): the two outcomes keyed by try_from_ascii(ARG) being Some / None -> (ret_some, ret_none, T) or None"""
+    if fp is None or len(fp) != 2:
+        return None
+    res = {}
+    T = None
+    for guards, ret in fp:
+        if len(guards) != 1:
+            return None
+        g = guards[0]
+        if not (g[0] == "sw" and isinstance(g[1], tuple) and g[1][0] == "discr" and an.is_call(g[1][1], TRY_ASCII, (("ARG",),)) and g[2] in ("==", "notin")):
+            return None
+        T = g[1][1]
+        if g[2] == "==":
+            res[g[3]] = ret
+        elif g[3] in ((0,), (1,)):
+            res[1 - g[3][0]] = ret
+    if set(res) != {0, 1}:
+        return None
+    return res[1], res[0], T
+
+
 def is_strict_closure(cfg, clo):
-    """b -> A::try_from_ascii(b).ok_or(UnrecognisedBase(b)) : the error payload is the closure's own parameter"""
-    r = closure_ret(cfg, clo)
-    if r is None:
-        return False, "closure body not a single expression"
-    ok = an.is_call(r, re.compile(r"^std::option::Option::<A>::ok_or::<error::ParseBioError>$")) and \
-        an.is_call(r[2][0], TRY_ASCII, (("ARG",),)) and \
-        r[2][1] == ("agg", "error::ParseBioError", r[2][1][2] if isinstance(r[2][1], tuple) and len(r[2][1]) > 2 else 0, "UnrecognisedBase", (("ARG",),))
-    return bool(ok), show(r)
+    """b -> A::try_from_ascii(b).ok_or(UnrecognisedBase(b)), however it is written (ok_or, match, helper function):
+    Some(x) -> Ok(x), None -> Err(UnrecognisedBase(b)) with the function's own parameter as the payload"""
+    sp = _try_ascii_split(fn_paths(cfg, clo))
+    if sp is None:
+        return False, "not a two-way split on try_from_ascii(byte)"
+    rs, rn, T = sp
+    pay = F(("downcast", T, 1, "Some"), "0")
+    ok = rs == ("agg", "std::result::Result", 0, "Ok", (pay,)) and isinstance(rn, tuple) and rn[0] == "agg" and rn[1] == "std::result::Result" and rn[3] == "Err" and \
+        isinstance(rn[4][0], tuple) and rn[4][0][:2] == ("agg", "error::ParseBioError") and rn[4][0][3] == "UnrecognisedBase" and rn[4][0][4] == (("ARG",),)
+    return bool(ok), "Some -> %s, None -> %s" % (show(rs)[:80], show(rn)[:80])
 
 
 def is_accept_closure(cfg, clo):
-    """b -> A::try_from_ascii(b).is_some()"""
-    r = closure_ret(cfg, clo)
-    if r is None:
-        return False, "?"
-    ok = an.is_call(r, re.compile(r"^std::option::Option::<A>::is_some$")) and an.is_call(r[2][0], TRY_ASCII, (("ARG",),))
-    return bool(ok), show(r)
+    """b -> A::try_from_ascii(b).is_some(), however it is written"""
+    sp = _try_ascii_split(fn_paths(cfg, clo))
+    if sp is None:
+        return False, "not a two-way split on try_from_ascii(byte)"
+    rs, rn, T = sp
+    return rs == ("int", 1, "bool") and rn == ("int", 0, "bool"), "Some -> %s, None -> %s" % (show(rs), show(rn))
 
 
 BYTES_SRC = re.compile(r"^<std::vec::Vec<u8> as std::iter::IntoIterator>::into_iter$|^core::slice::<impl \[u8\]>::iter$")
 MAP = re.compile(r" as std::iter::Iterator>::map::<")
+COPIED = re.compile(r" as std::iter::Iterator>::(copied|cloned)::<")
 COLLECT = re.compile(r" as std::iter::Iterator>::collect::<(.*)>$")
 
 
@@ -68,6 +124,8 @@ def strict_parse_of(cfg, t):
     if not (mp[0] == "call" and MAP.search(mp[1])):
         return None, "collect is not fed by a map: " + show(mp)[:120]
     src, clo = mp[2][0], mp[2][1]
+    if src[0] == "call" and COPIED.search(src[1]):
+        src = src[2][0]
     if not (src[0] == "call" and BYTES_SRC.match(src[1])):
         return None, "map does not run over the input bytes in order: " + show(src)[:120]
     ok, d = is_strict_closure(cfg, clo)
